@@ -20,6 +20,8 @@ FLAVOURS = {
                  link=['-fsanitize=thread', '-lrapidcheck']),
     'cov': dict(cxx=CLANG, flags=['-O1', '-g', '-fprofile-instr-generate', '-fcoverage-mapping', '-DCHESSPP_VERIF_TT_ENTRIES=4096'],
                 link=['-fprofile-instr-generate', '-lrapidcheck']),
+    # the real executable for valgrind memcheck (no sanitizer, debug info, little optimisation)
+    'vg': dict(cxx=GXX, flags=['-O1', '-g', '-fno-omit-frame-pointer', '-DCHESSPP_VERIF_TT_ENTRIES=4096'], link=[]),
     'fuzz': dict(cxx=CLANG, flags=['-O1', '-g', '-fno-omit-frame-pointer', '-fsanitize=address,undefined,fuzzer-no-link',
                                    '-fno-sanitize-recover=' + SAN_FATAL, '-DCHESSPP_VERIF_TT_ENTRIES=4096'],
                  link=['-fsanitize=address,undefined,fuzzer']),
@@ -805,6 +807,212 @@ def build_real_engine(flavour='asan'):
     return exe
 
 
+def build_engine_only(flavour):
+    """engine objects + engine/main.cpp for a flavour, without any harness code"""
+    fl = FLAVOURS[flavour]
+    flags = COMMON + fl['flags']
+    eh = sha_files(engine_all_files(), ' '.join([fl['cxx']] + flags))
+    edir = os.path.join(BUILD, 'eng-%s-%s' % (flavour, eh))
+    exe = os.path.join(edir, 'chessplusplus-' + flavour)
+    if os.path.exists(exe):
+        os.utime(edir)
+        return exe
+    os.makedirs(edir, exist_ok=True)
+    t0 = time.time()
+    jobs, objs = [], []
+    for src in engine_sources() + [os.path.join(REPO, 'engine', 'main.cpp')]:
+        o = os.path.join(edir, os.path.basename(src)[:-4] + '.o')
+        objs.append(o)
+        jobs.append(([fl['cxx']] + flags + ['-c', src, '-o', o], o))
+    errs = compile_many(jobs)
+    if errs:
+        log('BUILD FAILED (%s engine):\n%s' % (flavour, '\n'.join(errs)))
+        return None
+    tmpexe = exe + '.tmp%d' % os.getpid()
+    r = run_cmd([fl['cxx']] + objs + fl['link'] + ['-pthread', '-o', tmpexe])
+    if r.returncode:
+        log('engine link failed:\n' + r.stdout[-3000:])
+        return None
+    os.replace(tmpexe, exe)
+    log('[build] %s/engine built in %.1fs' % (flavour, time.time() - t0))
+    prune('eng-%s' % flavour, 2)
+    return exe
+
+
+VG_ERR = re.compile(r'uninitialised|Invalid (read|write|free)|Mismatched free|Source and destination overlap|Process terminating with')
+
+
+def drive_script(exe, script, logpath, wait_s=90, deadline_s=900):
+    """feed a recorded UCI script (harness/session.h record mode) to `exe` under valgrind memcheck.  Returns a dict with
+    valgrind's report (or ''), counts, and whether a wait timed out (inconclusive)"""
+    import threading, queue
+    cmd = ['valgrind', '-q', '--error-exitcode=97', '--read-var-info=no', '--track-origins=yes', '--log-file=' + logpath, exe]
+    p = subprocess.Popen(cmd, stdin=subprocess.PIPE, stdout=subprocess.PIPE, stderr=subprocess.STDOUT, text=True, bufsize=1)
+    q = queue.Queue()
+
+    def reader():
+        for line in p.stdout:
+            q.put(line.rstrip('\n'))
+        q.put(None)
+    th = threading.Thread(target=reader, daemon=True)
+    th.start()
+
+    def wait_for(prefix, secs):
+        end = time.time() + secs
+        while True:
+            try:
+                line = q.get(timeout=max(0.1, end - time.time()))
+            except queue.Empty:
+                return False
+            if line is None:
+                return False
+            if line.startswith(prefix):
+                return True
+            if time.time() > end:
+                return False
+    sent = gos = timeouts = 0
+    dead = False
+    t_start = time.time()
+    try:
+        for line in open(script):
+            line = line.rstrip('\n')
+            if not line or line == '@session':
+                continue
+            if time.time() - t_start > deadline_s:
+                timeouts += 1
+                break
+            if p.poll() is not None:
+                dead = True
+                break
+            if line.startswith('@wait '):
+                what = line[6:]
+                if not wait_for(what, wait_s):
+                    if p.poll() is not None:
+                        dead = True
+                        break
+                    timeouts += 1
+                    if what == 'bestmove':
+                        p.stdin.write('stop\n')
+                        p.stdin.flush()
+                        if not wait_for(what, 30):
+                            break
+                    else:
+                        break
+                continue
+            sent += 1
+            gos += line.startswith('go')
+            p.stdin.write(line + '\n')
+            p.stdin.flush()
+        if p.poll() is None:
+            p.stdin.write('quit\n')
+            p.stdin.flush()
+        try:
+            p.wait(timeout=60)
+        except subprocess.TimeoutExpired:
+            p.kill()
+            timeouts += 1
+    except (BrokenPipeError, OSError):
+        dead = True
+    rc = p.poll()
+    if rc is None:
+        p.kill()
+        rc = -9
+    rep = ''
+    try:
+        rep = open(logpath, errors='replace').read()
+    except Exception:
+        pass
+    bad = rc == 97 or bool(VG_ERR.search(rep)) or (dead and rc not in (0, None)) or (rc not in (0, 97, -9) and rc is not None)
+    return dict(report=rep, rc=rc, commands=sent, gos=gos, timeouts=timeouts, violation=bad)
+
+
+def vg_signature(rep):
+    m = re.search(r'==\d+== ((?:Conditional jump|Use of uninitialised|Invalid|Syscall param|Mismatched|Source and destination|Process terminating)[^\n]*)', rep)
+    kind = re.sub(r'\d+', 'N', m.group(1)).strip().replace(' ', '_')[:70] if m else 'exit'
+    f = re.search(r'\(([\w.]+\.(?:cpp|h)):(\d+)\)', rep)
+    return 'valgrind:%s:%s' % (kind, (f.group(1) + ':' + f.group(2)) if f else 'noframe')
+
+
+def valgrind_half(pid, cfg, tier, seed):
+    """recorded sessions -> real executable under valgrind memcheck.  Returns (rc, coverage dict, violations)"""
+    tc = cfg[tier].get('valgrind')
+    if not tc:
+        return 0, None, []
+    exe = build_engine_only('vg')
+    runner = build('fast', 'runner')
+    if not exe or not runner:
+        return 2, None, []
+    rundir = os.path.join(BUILD, 'tmp', 'vg-%s-%d' % (pid, os.getpid()))
+    shutil.rmtree(rundir, ignore_errors=True)
+    os.makedirs(rundir)
+    nsh = tc.get('shards', 16)
+
+    def shard(i):
+        script = os.path.join(rundir, 'script%d.txt' % i)
+        rep = os.path.join(rundir, 'rep%d.json' % i)
+        cmd = [runner, '--prop', 'C10script', '--tier', tier, '--seed', str(seed * 1000 + 500 + i), '--cases', str(tc['sessions']), '--max-size', '100', '--scale', str(tc.get('scale', 3)),
+               '--out', rep, '--fp', os.path.join(rundir, 'fp%d.bin' % i), '--replay-out', os.path.join(rundir, 'fail%d.tape' % i),
+               '--opt', 'scriptfile=' + script, '--opt', 'tmpdir=' + rundir, '--opt', 'max_game_plies=900']
+        r = subprocess.run(cmd, stdout=subprocess.PIPE, stderr=subprocess.STDOUT, text=True)
+        if r.returncode != 0 or not os.path.exists(script):
+            return i, None, None, r.stdout[-2000:]
+        res = drive_script(exe, script, os.path.join(rundir, 'vg%d.log' % i))
+        try:
+            rj = json.load(open(rep))
+        except Exception:
+            rj = None
+        return i, res, rj, ''
+    with ThreadPoolExecutor(min(nsh, NCPU)) as ex:
+        results = list(ex.map(shard, range(nsh)))
+    classes, sessions, commands, gos, timeouts = {}, 0, 0, 0, 0
+    samples, viol = [], []
+    os.makedirs(os.path.join(ROOT, 'replays'), exist_ok=True)
+    for i, res, rj, err in results:
+        if res is None:
+            log('valgrind half: script generation failed in shard %d:\n%s' % (i, err))
+            return 2, None, []
+        commands += res['commands']
+        gos += res['gos']
+        timeouts += res['timeouts']
+        if rj:
+            sessions += rj.get('evaluations', 0)
+            for k, v in rj.get('classes', {}).items():
+                if k.startswith('script:'):
+                    classes[k] = classes.get(k, 0) + v
+            for k, v in rj.get('samples', {}).items():
+                samples += v[:1]
+        if res['violation']:
+            script = os.path.join(rundir, 'script%d.txt' % i)
+            dest = os.path.join(ROOT, 'replays', '%s-%s-seed%d-valgrind-shard%d.script' % (pid, tier, seed, i))
+            shutil.copy(script, dest)
+            # books referenced by the script live in rundir: keep them next to the replay
+            keep = os.path.join(ROOT, 'replays', 'books')
+            os.makedirs(keep, exist_ok=True)
+            txt = open(dest).read()
+            for b in set(re.findall(r'(%s/verif-sess-book-[\w-]+\.bin)' % re.escape(rundir), txt)):
+                if os.path.exists(b):
+                    shutil.copy(b, keep)
+                    txt = txt.replace(b, os.path.join(keep, os.path.basename(b)))
+            open(dest, 'w').write(txt)
+            # 3x replay
+            ok = 0
+            last = res
+            for k in range(3):
+                r2 = drive_script(exe, dest, os.path.join(rundir, 'vgreplay%d_%d.log' % (i, k)))
+                if r2['violation']:
+                    ok += 1
+                    last = r2
+            if ok == 3:
+                viol.append((dest, vg_signature(last['report']), last['report']))
+            else:
+                timeouts += 1
+    cov = dict(flavour='vg (g++ -O1 -g, engine/main.cpp, no harness code) under valgrind memcheck --track-origins=yes', shards=nsh, sessions=sessions, commands=commands, go_commands=gos,
+               waits_timed_out=timeouts, classes=classes, samples=samples[:6],
+               rule='sessions from harness/session.h in record mode (depth <= 3, nodes <= 3000, short time limits, infinite + stop) are fed to the real executable under valgrind; any memcheck error (use of an uninitialised value, invalid access) or abnormal exit that reproduces 3x is a violation; a wait that times out is inconclusive')
+    shutil.rmtree(rundir, ignore_errors=True)
+    return (1 if viol else 0), cov, viol
+
+
 STARTUP_SESSIONS = [
     'uci\nisready\nquit\n',
     'uci\nsetoption name Polyglot Sample value best\nsetoption name Polyglot Book value /nonexistent\nisready\nucinewgame\nposition startpos moves e2e4 e7e5\nprintboard\nhash\nstaticeval\nperft 2\nquit\n',
@@ -861,9 +1069,35 @@ def run_c10(pid, cfg, tier, seed, t0):
     rc = run_rc_property(pid, cfg, tier, seed, t0)
     if rc != 0 or not os.path.exists(ev_path):
         return rc
+    vrc, vcov, vviol = valgrind_half(pid, cfg, tier, seed)
+    if vrc == 2:
+        return 2
+    if vviol:
+        known = [k for k in load_known() if k.get('property') == pid and k.get('status') == 'known']
+        fresh = []
+        for dest, sig, rep_ in vviol:
+            matched = [k for k in known if k.get('signature') and re.search(k['signature'], sig + '\n' + rep_)]
+            if matched:
+                print('KNOWN-FINDING: property=%s %s' % (pid, matched[0].get('what', '')))
+            else:
+                fresh.append((dest, sig, rep_))
+        if fresh:
+            ev0 = json.load(open(ev_path))
+            ev0['violations'] = len(fresh)
+            ev0['coverage']['valgrind_half'] = vcov
+            ev0['coverage']['violation_replays'] = [f[0] for f in fresh]
+            json.dump(ev0, open(ev_path, 'w'), indent=1)
+            for dest, sig, rep_ in fresh:
+                log('--- violation detail (%s) ---\n%s' % (sig, rep_[-3500:]))
+                print('VIOLATION property=%s replay=%s' % (pid, os.path.relpath(dest, ROOT)))
+            return 1
+    if vcov:
+        print('OK property=%s valgrind-half sessions=%d commands=%d go=%d timeouts=%d' % (pid, vcov['sessions'], vcov['commands'], vcov['go_commands'], vcov['waits_timed_out']))
     try:
         ev0 = json.load(open(ev_path))
         ev0['coverage']['exit_half'] = exit_half
+        if vcov:
+            ev0['coverage']['valgrind_half'] = vcov
         ev0['coverage']['startup_probe'] = dict(sessions=len(STARTUP_SESSIONS), rule='engine/main.cpp linked with the ASan/UBSan engine objects, scripted sessions without searches over stdin; any sanitizer report or non-zero exit is a violation')
         json.dump(ev0, open(ev_path, 'w'), indent=1)
     except Exception:
@@ -965,6 +1199,18 @@ def run_c10(pid, cfg, tier, seed, t0):
 
 def replay_c10(pid, cfg, path):
     head = open(path, 'rb').read(16)
+    if head.startswith(b'@session'):
+        exe = build_engine_only('vg')
+        if not exe:
+            return 2
+        logp = os.path.join(BUILD, 'tmp', 'vg-replay-%d.log' % os.getpid())
+        os.makedirs(os.path.dirname(logp), exist_ok=True)
+        res = drive_script(exe, path, logp)
+        print(res['report'][-4000:])
+        if res['violation']:
+            print('VIOLATION property=%s replay=%s' % (pid, path))
+            return 1
+        return 0
     if b'# startup-probe' in open(path, 'rb').read(64):
         ok, out = startup_probe(pid)
         print(out)
